@@ -41,6 +41,8 @@ def run(ctx):
     # "identical ... cost, the native path never costing more": both paths meter CLVM and size cost the same way (shared with C04.4)
     from . import c04
     c04.c04_4(ctx, R="C07.1", eps_only=("run_block_generator", "run_block_generator2"))
+    # the shared per-spend charge must not depend on which path supplies clvm_cost: charge-paired budget guards (shared with C04.3)
+    c04.c04_3(ctx, R="C07.1")
 
 
 def _spend_guard(b):
